@@ -35,6 +35,7 @@ def check(run):
         viol, samples, s = summary_of(outp)
         if s is None or s["histories"] != n:
             raise core.Inconclusive("driver did not finish")
+        viol = run.confirm(binary, "TestC16", {"VERIF_CONF": json.dumps(cf)}, viol, name)
         for v in viol:
             run.violation(v)
         for x in samples[:1]:
